@@ -52,12 +52,12 @@ func Range(c Collection, ids []string, filter *Filter, sort []string, size uint,
 	// Pagination
 	var page Resources
 
-	skip := int(num * size)
+	total := uint(len(col.col))
 
-	if skip >= len(col.col) {
-		col = sortedResources{}
-	} else {
-		for i := skip; i < len(col.col) && i < skip+int(size); i++ {
+	// num <= total/size guarantees that num*size does not overflow.
+	if size > 0 && num <= total/size {
+		skip := num * size
+		for i := skip; i < total && i-skip < size; i++ {
 			page = append(page, col.col[i])
 		}
 	}
